@@ -157,16 +157,23 @@ def ift_coord(c):
     return np.linspace(0, dim/ext, dim)
 
 
+def with_dims(cs, rename):
+    # every coordinate with the (renamed) axes it runs along, which xarray
+    # can only infer for the coordinates named like their axis
+    return {k: ([rename.get(dim, dim) for dim in v.dims], v.values)
+            for k, v in cs.items()}
+
+
 def ft_coords(cs):
-    d = {k: v.values for k, v in cs.items()}
-    d['m'] = ft_coord(d.pop('x'))
-    d['n'] = ft_coord(d.pop('y'))
+    d = with_dims(cs, {'x': 'm', 'y': 'n'})
+    d['m'] = ft_coord(d.pop('x')[1])
+    d['n'] = ft_coord(d.pop('y')[1])
     return d
 
 
 def ift_coords(cs):
-    d = {k: v.values for k, v in cs.items()}
-    d['x'] = ift_coord(d.pop('m'))
-    d['y'] = ift_coord(d.pop('n'))
+    d = with_dims(cs, {'m': 'x', 'n': 'y'})
+    d['x'] = ift_coord(d.pop('m')[1])
+    d['y'] = ift_coord(d.pop('n')[1])
     return d
 
